@@ -425,6 +425,8 @@ func (brr *BalanceRR) simpleBalance() (*backend.BfeBackend, error) {
 				brr.initWeight()
 				brr.next = 0
 				next = 0
+				// judge the next scan on its own: backends may have gone down meanwhile
+				allBackendDown = true
 			}
 		}
 	}
